@@ -349,6 +349,81 @@ pub fn pattern_universe(tier: Tier) -> (Vec<String>, String, std::ops::Range<usi
     (pats, desc, special_from..special_from + n_spec)
 }
 
+/// Patterns with text anchors (`\A`, `\z`, non-multi-line `^` / `$`). The
+/// matcher must not declare a line terminator for them unless running it over
+/// a whole buffer still finds every line that matches on its own; bounded
+/// exhaustive enumeration of two-line buffers, emulating the searcher's use of
+/// `find_candidate_line`.
+fn anchor_family() -> (u64, u64, u64, Vec<(String, serde_json::Value)>) {
+    use grep_matcher::Matcher;
+    let pats = [
+        "fo\\z", "\\w+\\z", "(?-m)\\w+$", "(?-m:fo$)", "o\\z|x", "\\Afo", "(?-m)^fo", "(?-m:^f)o", "\\Ao|\\Ax", "f\\z|\\Ao", "(?-m:^)x*(?-m:$)", "\\bfo\\z",
+    ];
+    let al = [b'f', b'o', b'x'];
+    let n = seq_count(al.len(), 3);
+    let mut idx = vec![];
+    let lines: Vec<Vec<u8>> = (0..n)
+        .map(|i| {
+            seq_decode(al.len(), i, &mut idx);
+            idx.iter().map(|&k| al[k]).collect()
+        })
+        .collect();
+    let (mut runs, mut declared, mut undeclared) = (0u64, 0u64, 0u64);
+    let mut disc = vec![];
+    for pat in pats {
+        let pat = pat.replace("\\\\", "\\");
+        for lt in [Lt::Lf, Lt::Crlf] {
+            let o = Opts::base(lt);
+            let Ok(m) = o.build(&[pat.as_str()]) else { continue };
+            if m.line_terminator().is_none() {
+                // the searcher then strips every line and asks the matcher
+                // about the line alone: nothing to pass over
+                undeclared += 1;
+                continue;
+            }
+            declared += 1;
+            let term: &[u8] = if lt == Lt::Crlf { b"\r\n" } else { b"\n" };
+            let mut reported = 0;
+            'bufs: for l1 in lines.iter() {
+                for l2 in lines.iter() {
+                    let mut buf = l1.clone();
+                    buf.extend_from_slice(term);
+                    let s2 = buf.len();
+                    buf.extend_from_slice(l2);
+                    buf.extend_from_slice(term);
+                    let spans = [(0usize, l1.len(), s2), (s2, s2 + l2.len(), buf.len())];
+                    let mut visited = [false, false];
+                    let mut pos = 0usize;
+                    while pos < buf.len() {
+                        let Some(k) = m.find_candidate_line(&buf[pos..]).ok().flatten() else { break };
+                        let i = pos + match k {
+                            LineMatchKind::Candidate(i) | LineMatchKind::Confirmed(i) => i,
+                        };
+                        let Some(li) = spans.iter().position(|&(s, _, e)| s <= i && i < e) else { break };
+                        visited[li] = true;
+                        pos = spans[li].2;
+                    }
+                    runs += 1;
+                    for (li, &(s, e, _)) in spans.iter().enumerate() {
+                        if m.is_match(&buf[s..e]).unwrap_or(false) && !visited[li] && reported < 3 {
+                            reported += 1;
+                            disc.push((
+                                format!("candidate-search-passes-over-line | {} | {} | {}", o.show(), pat, esc(&buf)),
+                                json!({"kind":"anchor-family","pattern":pat,"opts":opts_json(&o),"buffer":esc(&buf),"line":esc(&buf[s..e]),
+                                       "why":"the matcher declares a line terminator, the line matches on its own, and the candidate search over the buffer never stops in it"}),
+                            ));
+                        }
+                    }
+                    if reported >= 3 {
+                        break 'bufs;
+                    }
+                }
+            }
+        }
+    }
+    (runs, declared, undeclared, disc)
+}
+
 pub fn run(args: &Args) -> ! {
     if let Some(r) = &args.replay {
         replay(r);
@@ -394,6 +469,16 @@ pub fn run(args: &Args) -> ! {
         }
         machinery_error("C11: the automaton model disagrees with the real matcher on a replayed path (model drift)");
     }
+    let anchors = anchor_family();
+    for (k, v) in anchors.3.iter() {
+        verdict.discrepancy(None, k, v.clone());
+    }
+    if anchors.1 + anchors.2 == 0 {
+        machinery_error("C11: the text-anchor family built no matcher");
+    }
+    ev.set("text_anchor_family_buffers_probed", anchors.0);
+    ev.set("text_anchor_matchers_declaring_a_line_terminator", anchors.1);
+    ev.set("text_anchor_matchers_declaring_none_slow_path_only", anchors.2);
     for (k, v) in total.disc.iter() {
         verdict.discrepancy(None, k, v.clone());
     }
@@ -419,7 +504,7 @@ pub fn run(args: &Args) -> ! {
     ev.set(
         "rule",
         format!(
-            "{}; x {} builder option sets. Per accepted matcher, four explicit-state explorations over ALL byte strings (one representative byte per joint DFA byte class): (a) anchored exploration of the final HIR's DFA from every look-behind context: no match contains a terminator byte; (b) product of the DFA of the pattern as written (harness-built from the flag documentation) and the final HIR's DFA over all terminator-free lines: same lines match; (c) as (a) for every byte in non_matching_bytes; (d) product of the final HIR's DFA and the DFA of the extracted inner literals: a matching line contains a literal, and literals are terminator-free. states/transitions = product states / transitions explored; traces_validated_against_impl = witnesses and shortest paths to product states replayed on the real RegexMatcher (is_match / find_at / find_candidate_line) with the DFA verdict compared (a disagreement is a machinery error, not a verdict). Unicode word boundaries: decided over ASCII lines (the DFA quits on non-ASCII).",
+            "{}; x {} builder option sets. Per accepted matcher, four explicit-state explorations over ALL byte strings (one representative byte per joint DFA byte class): (a) anchored exploration of the final HIR's DFA from every look-behind context: no match contains a terminator byte; (b) product of the DFA of the pattern as written (harness-built from the flag documentation) and the final HIR's DFA over all terminator-free lines: same lines match; (c) as (a) for every byte in non_matching_bytes; (d) product of the final HIR's DFA and the DFA of the extracted inner literals: a matching line contains a literal, and literals are terminator-free. states/transitions = product states / transitions explored; traces_validated_against_impl = witnesses and shortest paths to product states replayed on the real RegexMatcher (is_match / find_at / find_candidate_line) with the DFA verdict compared (a disagreement is a machinery error, not a verdict). Unicode word boundaries: decided over ASCII lines (the DFA quits on non-ASCII). Text-anchor family (\\A, \\z, non-multi-line ^ $; twelve patterns x LF / CRLF, built with multi_line as the command line does): a matcher that declares a line terminator is run over every two-line buffer of lines up to length 3 over {{f,o,x}} the way the searcher's fast path uses find_candidate_line, and must stop in every line that matches on its own; a matcher that declares none is only ever asked about single lines.",
             desc, osets.len()
         ),
     );
